@@ -293,6 +293,30 @@ def _unit_env(ctx, f: Func, fl: IndexFields) -> Dict[str, str]:
             v = n.value
             if isinstance(v, ast.Call) and isinstance(v.func, ast.Name) and v.func.id in FIND:
                 env[n.targets[0].id] = "RANK"
+    # containers of (position, value) pairs: the annotated List[Tuple[int, ...]] map (fields)
+    pair_maps = set()
+    ci = ctx.prog.cls("Index")
+    for a_, ann in ci.annotations.items():
+        if "List[Tuple[int" in norm(ann):
+            pair_maps.add(a_)
+    pair_lists = set()
+    for n in walk_local(f.node):
+        if isinstance(n, ast.For) and isinstance(n.iter, ast.Call) and call_name(n.iter) in ("items", "values") \
+                and is_self_attr(n.iter.func.value) and n.iter.func.value.attr in pair_maps:
+            t_ = n.target
+            if call_name(n.iter) == "items" and isinstance(t_, ast.Tuple) and len(t_.elts) == 2 \
+                    and isinstance(t_.elts[1], ast.Name):
+                pair_lists.add(t_.elts[1].id)
+            elif call_name(n.iter) == "values" and isinstance(t_, ast.Name):
+                pair_lists.add(t_.id)
+    for n in walk_local(f.node):
+        it = tgt = None
+        if isinstance(n, (ast.For, ast.comprehension)):
+            it, tgt = n.iter, n.target
+        if it is not None and isinstance(tgt, ast.Name):
+            if (isinstance(it, ast.Name) and it.id in pair_lists) or (
+                    isinstance(it, ast.Subscript) and is_self_attr(it.value) and it.value.attr in pair_maps):
+                env[tgt.id] = "PAIR"
     return env
 
 
@@ -310,10 +334,13 @@ def position_vs_rank(ctx):
                 l, r = n.left, n.comparators[0]
                 if isinstance(l, ast.Name) and isinstance(r, ast.Name) and l.id in env and r.id in env:
                     n_sites += 1
-                    bad = env[l.id] == "RANK" and env[r.id] == "POSSET"
+                    bad = env[l.id] in ("RANK", "PAIR") and env[r.id] == "POSSET"
                     yield Ob("C06.R3", ["C06", "C02", "C01", "C07"], f"{f.qual} | membership | {norm(n)}", not bad,
-                             (f"`{l.id}` is a rank in the sorted timestamps but `{r.id}` holds storage "
-                              f"positions" if bad else f"{env[l.id]} tested against {env[r.id]}"),
+                             ((f"`{l.id}` is a rank in the sorted timestamps but `{r.id}` holds storage positions"
+                               if env[l.id] == "RANK" else
+                               f"`{l.id}` is a (position, value) pair but `{r.id}` holds storage positions: the test "
+                               f"is never true, nothing is ever filtered")
+                              if bad else f"{env[l.id]} tested against {env[r.id]}"),
                              ctx.prog.loc(n))
             if isinstance(n, ast.Subscript) and is_self_attr(n.value) and isinstance(n.slice, ast.Name) \
                     and n.slice.id in env:
@@ -359,10 +386,22 @@ def _implies_valid(e: ast.AST) -> bool:
     return False
 
 
-def guarded_by_valid(ctx, f: Func, node: ast.AST) -> bool:
+def guarded_by_valid(ctx, f: Func, node: ast.AST, depth: int = 0) -> bool:
     flags = _valid_atoms(ctx, f)
     for cond, pol in guards(node):
+        if hasattr(cond, "stmt"):
+            continue
         if pol and _cond_implies_valid(cond, flags):
+            return True
+    # a private helper: guarded iff every one of its call sites is
+    if depth < 3 and f.cls is not None and f.name.startswith("_") and not f.name.startswith("__"):
+        sites = []
+        for g in ctx.prog.all_funcs():
+            for c in walk_local(g.node):
+                if isinstance(c, ast.Call) and isinstance(c.func, ast.Attribute) and c.func.attr == f.name \
+                        and is_self_attr(c.func) and ctx.res.self_class(g) == f.cls:
+                    sites.append((g, c))
+        if sites and all(guarded_by_valid(ctx, g, c, depth + 1) for g, c in sites):
             return True
     return False
 
@@ -549,6 +588,14 @@ def _sorted_source(ctx, f: Func, value: ast.AST, fl: IndexFields, stmt: ast.stmt
 
 
 def _key_matches(key: Optional[ast.AST], elt: ast.AST, tgt: ast.AST) -> bool:
+    if isinstance(tgt, ast.Tuple) and isinstance(elt, ast.Name) and isinstance(key, ast.Lambda) \
+            and len(key.args.args) == 1:
+        # [a for a, b in buf] sorted by key=lambda x: x[0]
+        kv = key.args.args[0].arg
+        for i, comp in enumerate(tgt.elts):
+            if isinstance(comp, ast.Name) and comp.id == elt.id:
+                return norm(key.body) == f"{kv}[{i}]"
+        return False
     if not isinstance(tgt, ast.Name):
         return False
     if key is None:
